@@ -164,3 +164,53 @@ func lemmaBackoffMono(T, i, j int) {
 //@   after `c.pendingMu.Unlock()` assert[at-most-one] chsends() == S0 || chsends() == S0 + 1
 //@   after `c.pendingMu.Unlock()` assert[decoded] chsends() == S0 + 1 ==> lastChanValue() == msg && msg != nil && len(b[:n]) >= 4 && string(msg.TransactionID[:]) == string(b[:n])[1:4]
 //@   after `c.pendingMu.Unlock()` assert[own-channel] chsends() == S0 + 1 ==> has(c.pending, msg.TransactionID) && lastChan() == c.pending[msg.TransactionID].ch
+
+// ---------- the exchanges (property C13): what is asked, what may complete it, what comes back ----------
+
+// IsMessageType(t, tt...): the message's type is t or one of tt
+//@ contract IsMessageType$1
+//@   requires p != nil
+//@   ensures[type] result == (int(p.MessageType) == int(t) || !(forall i int :: {tt[i]} 0 <= i && i < len(tt) ==> int(p.MessageType) != int(tt[i])))
+//@   loop 0 invariant[before] rangeval == tt && (forall j int :: {tt[j]} 0 <= j && j <= rangeindex ==> int(p.MessageType) != int(tt[j])) && int(p.MessageType) != int(t)
+
+//@ define sarResp() = callresult("(*Client).SendAndRead", 0)
+//@ define sarErr() = callresult("(*Client).SendAndRead", 1)
+//@ define sarDone() = called("(*Client).SendAndRead") && callresult("(*Client).SendAndRead", 1) == nil
+//@ define sarMatch() = callarg("(*Client).SendAndRead", 4)
+//@ define typeMatcher1(m, a) = closureOf(m, "IsMessageType$1") && int(captured(m, "IsMessageType$1", "t")) == a && len(captured(m, "IsMessageType$1", "tt")) == 0
+//@ define typeMatcher2(m, a, b) = closureOf(m, "IsMessageType$1") && int(captured(m, "IsMessageType$1", "t")) == a && len(captured(m, "IsMessageType$1", "tt")) == 1 && int(captured(m, "IsMessageType$1", "tt")[0]) == b
+//@ define clientOK(c) = c != nil && c.conn != nil && c.logger != nil && c.pending != nil && int(c.timeout) >= 0
+
+// Solicit: a SOLICIT (NewSolicit's contract) is handed to the exchange; only an ADVERTISE can complete it and that very
+// message is returned
+//@ contract (*Client).Solicit
+//@   requires clientOK(c) && ctx != nil && len(modifiers) == 0
+//@   modifies c.pending
+//@   callsite (*Client).SendAndRead assert[request] arg3 == callresult("dhcpv6.NewSolicit", 0) && int(arg3.MessageType) == 1
+//@   callsite (*Client).SendAndRead assert[matcher] typeMatcher1(arg4, 2)
+//@   ensures[advertise] result1 == nil ==> sarDone() && result0 == sarResp() && specMatch(sarMatch(), result0)
+//@   ensures[failed] !sarDone() ==> result0 == nil && result1 != nil
+
+// Request: the REQUEST built from the ADVERTISE (NewRequestFromAdvertise's contract: its very client identifier, server
+// identifier and IA_NA) is handed to the exchange, which is paired by transaction id alone (no matcher), and whatever
+// the exchange returns is returned
+//@ contract (*Client).Request
+//@   requires clientOK(c) && ctx != nil && len(modifiers) == 0 && (advertise != nil ==> optsNonNil(advertise.Options.Options) && ianaTyped(advertise.Options.Options))
+//@   modifies c.pending
+//@   callsite (*Client).SendAndRead assert[request] arg3 == callresult("dhcpv6.NewRequestFromAdvertise", 0) && int(arg3.MessageType) == 3 && arg4 == nil
+//@   callsite (*Client).SendAndRead assert[carried] (forall i int :: {advertise.Options.Options[i]} firstWithCode(advertise.Options.Options, 1, i) ==> arg3.Options.Options[0] == advertise.Options.Options[i]) && (forall i int :: {advertise.Options.Options[i]} firstWithCode(advertise.Options.Options, 2, i) ==> arg3.Options.Options[1] == advertise.Options.Options[i]) && (forall i int :: {advertise.Options.Options[i]} firstWithCode(advertise.Options.Options, 3, i) ==> arg3.Options.Options[3] == advertise.Options.Options[i])
+//@   ensures[reply] called("(*Client).SendAndRead") ==> result0 == sarResp() && result1 == sarErr()
+//@   ensures[failed] !called("(*Client).SendAndRead") ==> result0 == nil && result1 != nil
+
+// RapidSolicit: a SOLICIT carrying the rapid-commit option (code 14) is handed to the exchange; only a REPLY or an
+// ADVERTISE can complete it; a REPLY is returned directly (rapid commit accepted); after an ADVERTISE the result is
+// whatever Request returns for that very ADVERTISE
+//@ contract (*Client).RapidSolicit
+//@   inlines dhcpv6.NewSolicit unroll 3, dhcpv6.WithIAID, dhcpv6.WithRapidCommit
+//@   requires clientOK(c) && ctx != nil && len(modifiers) == 0
+//@   modifies c.pending, modifiers[len(modifiers):cap(modifiers)]
+//@   callsite (*Client).SendAndRead assert[request] int(arg3.MessageType) == 1 && len(arg3.Options.Options) == 5 && arg3.Options.Options[4].Code() == 14
+//@   callsite (*Client).SendAndRead assert[matcher] typeMatcher2(arg4, 7, 2)
+//@   ensures[reply] sarDone() && int(sarResp().MessageType) == 7 ==> result0 == sarResp() && result1 == nil
+//@   ensures[advertise] sarDone() && int(sarResp().MessageType) == 2 ==> called("(*Client).Request") && callarg("(*Client).Request", 2) == sarResp() && result0 == callresult("(*Client).Request", 0) && result1 == callresult("(*Client).Request", 1)
+//@   ensures[failed] called("(*Client).SendAndRead") && sarErr() != nil ==> result0 == nil && result1 != nil
